@@ -58,7 +58,10 @@ def run_seq(kind, ops):
     return out == model + [None] and broker.count_invocations() == 0
 
 def run_both(ops):
-    return run_seq("mem", list(ops)) and run_seq("sqlite", list(ops))
+    # the solver decides the op codes (forked into concrete values); the real methods then run concretely
+    ops = [pick(o, 0, NOPS - 1) for o in ops]
+    with NoTracing():
+        return run_seq("mem", ops) and run_seq("sqlite", ops)
 '''
 
 F3 = r'''
@@ -99,7 +102,7 @@ def canary_lifo(o1: int, o2: int) -> bool:
     reset()
     b = APPS["mem"].broker
     model = []
-    for op in (o1, o2):
+    for op in (pick(o1, 0, NOPS - 1), pick(o2, 0, NOPS - 1)):
         apply(b, model, op)
     got = b.retrieve_invocation()
     exp = model.pop() if model else None
